@@ -503,4 +503,67 @@ example :
          ⟨true, [], .respond [.code 0, .code 0]⟩])).parts.map (·.store) = [none, some (5, 1)] := by
   decide
 
+
+/-! ## the initial fetch of ManagePartition -/
+
+/-- ManagePartition creates a pom (`fetchInitial = ok`) only from a fetch attempt that was answered with
+    ErrNoError within the `retries + 1` permitted attempts (or after the fault script ran out, i.e. by a
+    coordinator answering normally) — never from an attempt that failed. -/
+theorem fetch_ok_is_answered_ok (b : Bool) (r : Nat) (script : List FetchAtt) (b' : Bool)
+    (h : fetchInitial b r script = .ok b') :
+    (∃ a ∈ script.take (r + 1), a.ans = .ok) ∨ script.length < r + 1 := by
+  induction script generalizing b r with
+  | nil => right; simp
+  | cons a as ih =>
+    rw [fetchInitial.eq_def] at h; simp only at h
+    have step : ∀ (bb : Bool) (r' : Nat), r = r' + 1 → fetchInitial bb r' as = .ok b' →
+        (∃ x ∈ (a :: as).take (r + 1), x.ans = .ok) ∨ (a :: as).length < r + 1 := by
+      intro bb r' hr hh
+      subst hr
+      rcases ih bb r' hh with ⟨x, hx, hxo⟩ | hl
+      · left; exact ⟨x, by simp only [List.take_succ_cons, List.mem_cons]; right; exact hx, hxo⟩
+      · right; simp only [List.length_cons]; omega
+    split at h
+    · cases r with
+      | zero => simp at h
+      | succ r' => exact step false r' rfl h
+    · cases hans : a.ans with
+      | ok => left; exact ⟨a, by simp, hans⟩
+      | missing => simp [hans] at h
+      | other k => simp [hans] at h
+      | reqErr =>
+        simp only [hans] at h
+        cases r with
+        | zero => simp at h
+        | succ r' => exact step false r' rfl h
+      | notCoord =>
+        simp only [hans] at h
+        cases r with
+        | zero => simp at h
+        | succ r' => exact step false r' rfl h
+      | loading =>
+        simp only [hans] at h
+        cases r with
+        | zero => simp at h
+        | succ r' => exact step true r' rfl h
+
+/-- If each of the `retries + 1` permitted attempts of the initial fetch meets a retryable failure
+    (coordinator moved, offsets loading, request error), ManagePartition returns an error: no pom exists, so
+    no position other than a fetched one can ever be reported or committed. -/
+theorem fetch_budget_exhausted_fails (b : Bool) (r : Nat) (script : List FetchAtt)
+    (hlen : r + 1 ≤ script.length)
+    (hall : ∀ a ∈ script.take (r + 1), a.ans = .notCoord ∨ a.ans = .loading ∨ a.ans = .reqErr) :
+    ∃ e b', fetchInitial b r script = .fail e b' := by
+  cases h : fetchInitial b r script with
+  | fail e b' => exact ⟨e, b', rfl⟩
+  | ok b' =>
+    exfalso
+    rcases fetch_ok_is_answered_ok b r script b' h with ⟨a, ha, hok⟩ | hl
+    · rcases hall a ha with h1 | h1 | h1 <;> rw [hok] at h1 <;> exact absurd h1 (by decide)
+    · omega
+
+example : fetchInitial false 2 [⟨true, .loading⟩, ⟨true, .notCoord⟩, ⟨false, .ok⟩] = .fail .lookup false ∧
+          fetchInitial false 2 [⟨true, .loading⟩, ⟨true, .notCoord⟩, ⟨true, .ok⟩] = .ok true ∧
+          fetchInitial true 1 [⟨true, .loading⟩, ⟨true, .reqErr⟩, ⟨true, .ok⟩] = .fail .io true := by decide
+
 end Props.C06
